@@ -89,6 +89,7 @@ def m_fresh_peer(it, a, ty, callee):
 
 def install(it):
     A = it.add_model
+    A(r"<std::string::String as std::convert::From<std::borrow::Cow<'_, str>>>::from", lambda it, a, ty, c: a[0])
     A(r'std::net::SocketAddr::new', lambda it, a, ty, c: Adt('std::net::SocketAddr', 0, [a[0], a[1]]))
     A(r'<.* as std::string::ToString>::to_string', m_extern('string'))
     A(r'std::io::Error::new::<.*>', m_extern('io-error'))
